@@ -12,6 +12,7 @@ Sources of cases
 """
 import json
 import os
+import random
 
 from vlib import core
 
@@ -89,6 +90,7 @@ def collect_cases(ctx, vh):
     rnd = core.read_ndjson(os.path.join(d, "r.ndjson"))
     notes["random_cases"] = len(rnd)
     cases += rnd
+    random.Random(seed).shuffle(cases)      # lines are independent; shuffling balances the judge's shards
     # text style (number format, blanks, line ends, comments) varies with seed and position
     for i, c in enumerate(cases):
         if c["k"] == "ld" and "style" not in c:
